@@ -130,7 +130,7 @@ DecideCallback(a) ==
 (* token endpoint: authorization_code                                        *)
 
 CodeTokens(r, caller) ==
-  LET wantRT == "offline_access" \in r.scopes /\ "refresh" \in Reg[caller].grants IN
+  LET wantRT == "offline_access" \in r.scopes /\ "refresh" \in Grants(caller) IN
   [NoOut EXCEPT !.class = "tokens", !.status = 200,
                 !.at = NewAT(r.client, r.sub, r.scopes, {r.client}),
                 !.rt = IF wantRT THEN NewRT(r.client, r.sub, r.scopes, {r.client}, r.auth, "new") ELSE NoRt,
@@ -150,13 +150,13 @@ DecideCodeExchange(a) ==
       ELSE IF auth # "ok" THEN TokErr(auth)
       ELSE IF Reg[a.caller].auth = "none" /\ a.cred.kind # "assertion" /\ r.chall = "none" THEN TokErr("invalid_request")
       ELSE IF a.caller # r.client THEN TokErr("invalid_grant")
-      ELSE IF "code" \notin Reg[a.caller].grants THEN TokErr("unauthorized_client")
+      ELSE IF "code" \notin Grants(a.caller) THEN TokErr("unauthorized_client")
       ELSE IF a.uri # r.uri THEN TokErr("invalid_grant")
       ELSE CodeTokens(r, a.caller)
   ELSE
     IF auth = "assertion_failed" THEN TokErr("server_error")
     ELSE IF auth # "ok" THEN TokErr(auth)
-    ELSE IF "code" \notin Reg[a.caller].grants THEN TokErr("unauthorized_client")
+    ELSE IF "code" \notin Grants(a.caller) THEN TokErr("unauthorized_client")
     ELSE IF a.uri = "" THEN TokErr("invalid_request")
     ELSE IF ~CodeValid(a.code) THEN TokErr("invalid_grant")
     ELSE LET r == reqs[codes[a.code]] IN
@@ -181,7 +181,7 @@ RefreshTokens(r, a) ==
 
 DecideRefresh(a) ==
   LET auth == TokenClientAuth(a.caller, a.cred)
-      granted == a.caller \in Clients /\ "refresh" \in Reg[a.caller].grants
+      granted == a.caller \in Clients /\ "refresh" \in Grants(a.caller)
       tail == IF ~LiveRT(a.rt) THEN TokErr("invalid_grant")
               ELSE IF rts[a.rt].client # a.caller THEN TokErr("invalid_grant")
               ELSE IF ~(Range(a.scopes) \subseteq rts[a.rt].scopes) THEN TokErr("invalid_scope")
@@ -237,7 +237,7 @@ DecideRevoke(a) ==
 
 DecideDeviceAuthorize(a) ==
   LET dev == [NoOut EXCEPT !.class = "device", !.status = 200, !.dc = N("d", cnt.d + 1), !.uc = "uc-" \o N("d", cnt.d + 1), !.req = a.caller]
-      granted == a.caller \in Clients /\ "device" \in Reg[a.caller].grants IN
+      granted == a.caller \in Clients /\ "device" \in Grants(a.caller) IN
   IF cfg.router = "P" THEN
     LET ra == ResourceClientAuthP(a.caller, a.cred) IN
     IF ra[1] # "ok" THEN TokErr(ra[1])
@@ -254,7 +254,7 @@ DecideDeviceAuthorize(a) ==
     ELSE dev
 
 DeviceTokens(d) ==
-  LET wantRT == "offline_access" \in d.scopes /\ "refresh" \in Reg[d.client].grants IN
+  LET wantRT == "offline_access" \in d.scopes /\ "refresh" \in Grants(d.client) IN
   [NoOut EXCEPT !.class = "tokens", !.status = 200,
                 !.at = NewAT(d.client, d.sub, d.scopes, {d.client}),
                 !.rt = IF wantRT THEN NewRT(d.client, d.sub, d.scopes, {d.client}, "t", "new") ELSE NoRt,
@@ -283,7 +283,7 @@ DecidePoll(a) ==
         st == DeviceState(a) IN
     IF auth = "assertion_failed" THEN TokErr("server_error")
     ELSE IF auth # "ok" THEN TokErr(auth)
-    ELSE IF "device" \notin Reg[a.caller].grants THEN TokErr("unauthorized_client")
+    ELSE IF "device" \notin Grants(a.caller) THEN TokErr("unauthorized_client")
     ELSE IF ~cfg.dev THEN TokErr("unsupported_grant_type")
     ELSE IF st # "tokens" THEN TokErr(st)
     ELSE DeviceTokens(devs[a.dc])
@@ -318,7 +318,7 @@ DecideClientCreds(a) ==
                               !.at = NewAT(a.caller, a.caller, Range(a.scopes), {a.caller}), !.scope = a.scopes] IN
   IF ~cfg.cc THEN TokErr("unsupported_grant_type")
   ELSE IF ~secretOK THEN TokErr("invalid_client")
-  ELSE IF "cc" \notin Reg[a.caller].grants THEN TokErr("unauthorized_client")
+  ELSE IF "cc" \notin Grants(a.caller) THEN TokErr("unauthorized_client")
   ELSE tokens
 
 DecideJWTBearer(a) ==
@@ -333,7 +333,7 @@ DecideJWTBearer(a) ==
 DecideTokenExchange(a) ==
   LET authP == a.cred.kind = "basic" /\ SecretOK(a.caller, a.cred)
       authL == TokenClientAuth(a.caller, a.cred)
-      granted == a.caller \in Clients /\ "te" \in Reg[a.caller].grants
+      granted == a.caller \in Clients /\ "te" \in Grants(a.caller)
       eff == IF a.requested = "" THEN cfg.policy.defType ELSE a.requested
       hasActor == a.actor.kind # "none"
       \* "absent": the token is sent without its *_token_type parameter. A subject token without type is an unsupported type;
@@ -504,6 +504,7 @@ Event(op, a) == [op |-> op, args |-> a, out |-> Bind(op, Decide(op, a))]
 
 Do(e) ==
   /\ Apply(e)
+  /\ ApplyGone(e)
   /\ viol' = viol \cup {<<r, e.op>> : r \in Check(e)}
   /\ Bump(e.out)
   /\ UNCHANGED cfg
@@ -527,6 +528,8 @@ StepsOf(op) ==   \* the events of operation op enabled in the current state
     [] op = "ClientCreds" -> IF cnt.a < MaxAT THEN {Event(op, a) : a \in ClientCredsArgs} ELSE {}
     [] op = "JWTBearer" -> IF cnt.a < MaxAT THEN {Event(op, a) : a \in JWTBearerArgs} ELSE {}
     [] op = "TokenExchange" -> IF cnt.a < MaxAT /\ cnt.i < MaxAT THEN {Event(op, a) : a \in TokenExchangeArgs} ELSE {}
+    \* at most one withdrawal per history: the refresh grant of a client that holds a live refresh token
+    [] op = "Withdraw" -> IF gone = {} THEN {Event(op, [client |-> c, grant |-> "refresh"]) : c \in {rts[f].client : f \in {x \in DOMAIN rts : rts[x].live}}} ELSE {}
     [] OTHER -> {}
 
 Steps == UNION {StepsOf(op) : op \in Ops}
@@ -565,5 +568,5 @@ NoViolation == viol = {}
 
 \* observation-only parts of the state are hidden from the fingerprint in exhaustive runs
 \* (the step counter is hidden too: BFS reaches every state first by a shortest history, so the MaxSteps guard stays exact)
-View == <<cfg, reqs, codes, redeemed, toks, rts, idts, devs, [cnt EXCEPT !.n = 0], viol>>
+View == <<cfg, reqs, codes, redeemed, toks, rts, idts, devs, gone, [cnt EXCEPT !.n = 0], viol>>
 =============================================================================
